@@ -524,9 +524,9 @@ class C17(PropBase):
                     if ip[0] == "OK":
                         if isch != wsch:
                             bad = "the model selects scheme %r with authority %r, Url::join gave scheme %r" % (wsch, auth, isch)
-                        elif simple.match(auth) and (ihost, iuser, iport) != (auth, "", "-"):
+                        elif simple.fullmatch(auth) and (ihost, iuser, iport) != (auth, "", "-"):
                             bad = "the model selects authority %r, Url::join gave %s@%s:%s" % (auth, iuser, ihost, iport)
-                    elif simple.match(auth) and not auth.startswith("xn--"):
+                    elif simple.fullmatch(auth) and not auth.startswith("xn--"):
                         bad = "the model selects authority %r, Url::join answered %s" % (auth, a[:80])
                 elif mp[0] == "O":
                     wsch = dec(mp[1])
@@ -697,7 +697,7 @@ class C17(PropBase):
                     # speaks of — every request must stay below it (HttpSymbolSupplier::new appends the missing '/')
                     suffix = unhx(c.split()[1]).decode("utf-8", "replace")
                     import re as _re
-                    if _re.match(r"^[a-z]+(/[a-z]+)*/?$", suffix):
+                    if _re.fullmatch(r"[a-z]+(/[a-z]+)*/?", suffix):           # fullmatch: `$` would accept a trailing newline
                         want_prefix = "/" + suffix.rstrip("/") + "/"
                         for t in [t for call in calls for t in call]:
                             if not t.startswith(want_prefix):
